@@ -24,20 +24,21 @@ type genCfg struct {
 	visitedFns                                                   bool
 	markupText                                                   bool
 	multiByte                                                    bool
-	compound                                                     bool // compound assignment operators
-	typeFaultPct                                                 int  // percent of assignments given a value of another type
-	domainFaults                                                 bool // out-of-domain arguments to built-ins
-	visitLines                                                   bool // every line shows the visit counters of every node
-	replPct                                                      int  // with markupText: percent of chunks carrying a replacement marker
-	loopPct                                                      int  // percent of nodes ending in a counted jump back to themselves / another node
-	neverPct                                                     int  // percent of nodes with "tracking: never" (0: the default mix)
-	bareSetPct                                                   int  // percent of assignments whose right-hand side is a bare literal or variable
-	firstLineRepl                                                bool // the first line of every node carries an open-form replacement marker
-	randomPct                                                    int  // percent of numeric expressions that are a call of dice / random_range / random
+	compound                                                     bool     // compound assignment operators
+	typeFaultPct                                                 int      // percent of assignments given a value of another type
+	domainFaults                                                 bool     // out-of-domain arguments to built-ins
+	visitLines                                                   bool     // every line shows the visit counters of every node
+	replPct                                                      int      // with markupText: percent of chunks carrying a replacement marker
+	loopPct                                                      int      // percent of nodes ending in a counted jump back to themselves / another node
+	neverPct                                                     int      // percent of nodes with "tracking: never" (0: the default mix)
+	bareSetPct                                                   int      // percent of assignments whose right-hand side is a bare literal or variable
+	firstLineRepl                                                bool     // the first line of every node carries an open-form replacement marker
+	cmdNames                                                     []string // host commands of the family (default: hostCommandNames)
+	randomPct                                                    int      // percent of numeric expressions that are a call of dice / random_range / random
 }
 
 var flowCfg = genCfg{maxNodes: 4, maxDepth: 4, maxStmts: 5, wOpts: 5, wIf: 4, wSet: 3, wJump: 2, wCmd: 1, wCall: 1,
-	wDeclare: 1, wStop: 1, wLine: 6, exprDepth: 2, faultPct: 2, hostCmds: true, trackingHeaders: true, visitedFns: true, compound: true}
+	wDeclare: 1, wStop: 1, wLine: 6, exprDepth: 2, faultPct: 2, hostCmds: true, trackingHeaders: true, visitedFns: true, compound: true, loopPct: 25}
 
 type dgen struct {
 	r     *rand.Rand
@@ -257,6 +258,16 @@ func (g *dgen) decorate(s string) string {
 func (g *dgen) line(allowCond bool) *sx.Node {
 	elems := []*sx.Node{}
 	n := 1 + g.r.Intn(3)
+	if g.r.Intn(8) == 0 {
+		// a line that is nothing but one inline expression
+		t := []string{"num", "bool", "str"}[g.r.Intn(3)]
+		var e *sx.Node = varRef(g.pick(g.vars[t]))
+		if g.r.Intn(3) == 0 {
+			e = g.expr(t, 1)
+		}
+		elems = append(elems, sx.Tag("e", e))
+		n = 0
+	}
 	lastText := false
 	for i := 0; i < n; i++ {
 		if !lastText && g.r.Intn(3) != 0 {
@@ -428,7 +439,12 @@ func (g *dgen) stmt(depth int) *sx.Node {
 		}
 		return sx.Tag("declare", sx.Str(g.pick(g.vars[t])), v)
 	default:
-		return sx.Tag("cmd", strLit("stop"))
+		// <<stop>>, sometimes written with arguments: still the end of the dialogue
+		els := []*sx.Node{strLit("stop")}
+		if g.r.Intn(3) == 0 {
+			els = append(els, []*sx.Node{strLit("now"), numLit(3), g.exprNoLiteralFold("num"), boolLit(false)}[g.r.Intn(4)])
+		}
+		return sx.Tag("cmd", els...)
 	}
 }
 
@@ -438,9 +454,31 @@ func (g *dgen) command() *sx.Node {
 	if g.cfg.waitCmd && g.r.Intn(4) == 0 {
 		return sx.Tag("cmd", strLit("wait"), numLit([]float64{0.03, 0.05}[g.r.Intn(2)]))
 	}
-	name := g.pick(hostCommandNames)
+	names := hostCommandNames
+	if g.cfg.cmdNames != nil {
+		names = g.cfg.cmdNames
+	}
+	name := g.pick(names)
 	if !g.cfg.hostCmds || g.fault() {
 		name = "unregistered"
+	}
+	if strings.HasPrefix(name, "act") {
+		// a command registered through ConvertAndAddCommand with one float64 parameter
+		// (closed numeric expressions only: a converted handler refuses an argument of another type
+		// before it is invoked, which the raw-handler model of the runner does not describe)
+		a, b := numLit(numLits[g.r.Intn(len(numLits))]), numLit(numLits[g.r.Intn(len(numLits))])
+		switch g.r.Intn(5) {
+		case 0:
+			return sx.Tag("cmd", strLit(name), a)
+		case 1:
+			return sx.Tag("cmd", strLit(name), binOp([]string{"+", "-", "*"}[g.r.Intn(3)], a, b))
+		case 2:
+			return sx.Tag("cmd", strLit(name), fnCall("p", strLit("arg"), a))
+		case 3:
+			return sx.Tag("cmd", strLit(name), fnCall("fail", a)) // evaluation fails: the command is never dispatched
+		default:
+			return sx.Tag("cmd", strLit(name), fnCall("floor", binOp("/", a, numLit(4))))
+		}
 	}
 	elems := []*sx.Node{strLit(name)}
 	n := g.r.Intn(4)
@@ -499,7 +537,27 @@ func (g *dgen) dialogue() []*sx.Node {
 				"node " + name,
 			}[g.r.Intn(5)]
 		}
-		body := []*sx.Node{sx.Tag("line", sx.List(sx.Tag("t", sx.Str(first))), sx.List(), sx.List())}
+		firstElems := []*sx.Node{sx.Tag("t", sx.Str(first))}
+		if g.cfg.firstLineRepl {
+			// ... and touches every built-in, so that state shared between runners is exercised by all of them
+			x := numLit(float64(g.r.Intn(9)) + 0.25*float64(g.r.Intn(4)))
+			calls := []*sx.Node{
+				fnCall("floor", x), fnCall("ceil", x), fnCall("round", x), fnCall("round_places", x, numLit(1)), fnCall("inc", x),
+				fnCall("dec", x), fnCall("decimal", x), fnCall("integer", x), fnCall("string", x), fnCall("number", strLit("2.5")),
+				fnCall("bool", numLit(1)), fnCall("dice", numLit(6)), fnCall("random"), fnCall("random_range", numLit(1), numLit(4)),
+				fnCall("visited", strLit(name)), fnCall("visited_count", strLit(name)),
+			}
+			g.r.Shuffle(len(calls), func(a, b int) { calls[a], calls[b] = calls[b], calls[a] })
+			for i, c := range calls[:4+g.r.Intn(len(calls)-4)] {
+				if i == 0 {
+					firstElems[0] = sx.Tag("t", sx.Str(first+" "))
+					firstElems = append(firstElems, sx.Tag("e", c))
+				} else {
+					firstElems = append(firstElems, sx.Tag("t", sx.Str(" ")), sx.Tag("e", c))
+				}
+			}
+		}
+		body := []*sx.Node{sx.Tag("line", sx.List(firstElems...), sx.List(), sx.List())}
 		if i == 0 {
 			// most variables get a value first, so that scripts are mostly valid
 			for _, d := range []struct {
